@@ -22,11 +22,38 @@ def unhexBytes : List Char → Option (List Nat)
     | some x, some y, some rest => some ((x * 16 + y) :: rest)
     | _, _, _ => none
 
-/-- hex token -> text (code points) -/
+/-- strict UTF-8 validity, as `std::str::from_utf8`: shortest forms only, no surrogates, nothing above
+U+10FFFF, no truncated or stray continuation bytes (`utf8Decode` alone is lenient) -/
+def utf8Strict : List Nat → Bool
+  | [] => true
+  | b :: r =>
+    let cont (x : Nat) : Bool := 0x80 ≤ x && x ≤ 0xBF
+    if b < 0x80 then utf8Strict r
+    else if 0xC2 ≤ b && b ≤ 0xDF then
+      match r with
+      | b1 :: r1 => cont b1 && utf8Strict r1
+      | _ => false
+    else if 0xE0 ≤ b && b ≤ 0xEF then
+      match r with
+      | b1 :: b2 :: r2 =>
+        (if b == 0xE0 then 0xA0 ≤ b1 && b1 ≤ 0xBF else if b == 0xED then 0x80 ≤ b1 && b1 ≤ 0x9F else cont b1)
+          && cont b2 && utf8Strict r2
+      | _ => false
+    else if 0xF0 ≤ b && b ≤ 0xF4 then
+      match r with
+      | b1 :: b2 :: b3 :: r3 =>
+        (if b == 0xF0 then 0x90 ≤ b1 && b1 ≤ 0xBF else if b == 0xF4 then 0x80 ≤ b1 && b1 ≤ 0x8F else cont b1)
+          && cont b2 && cont b3 && utf8Strict r3
+      | _ => false
+    else false
+
+/-- hex token -> text; `none` unless the bytes are (strictly) valid UTF-8 — what is no `str` for the
+implementation is no text for the model either (such lines are skipped by the comparison, and they
+must not move the model's state) -/
 def unhexText (s : String) : Option Text :=
   if s == "-" then some [] else
   match unhexBytes s.toList with
-  | some bs => utf8Decode bs
+  | some bs => if utf8Strict bs then utf8Decode bs else none
   | none => none
 
 def nib (n : Nat) : Char := if n < 10 then Char.ofNat (48 + n) else Char.ofNat (87 + n)
